@@ -4,6 +4,7 @@ import (
 	"bytes"
 	"crypto/sha256"
 	"fmt"
+	"sort"
 
 	"github.com/ontio/ontology-crypto/keypair"
 	"github.com/polynetwork/poly/account"
@@ -301,6 +302,23 @@ func (s *Sim) badSubmission(st kernel.Step) {
 		ks := append(append([]*account.Account{}, memberAcc...), s.Users[0])
 		sealRaw(blk, ks, memberAcc, nil)
 		reseal, name = false, "extra-unsigned-bookkeeper"
+	case 31: // a full quorum of members listed first, then an outsider whose signature replaces one member's
+		if need < 1 || len(memberAcc) < need {
+			return
+		}
+		out := s.Users[int(x)%len(s.Users)]
+		ks := append(append([]*account.Account{}, memberAcc[:need]...), out)
+		sg := append(append([]*account.Account{}, memberAcc[:need-1]...), out)
+		sealRaw(blk, ks, sg, nil)
+		reseal, name = false, "foreign-key-listed-after-quorum"
+	case 32: // a full quorum of members listed first, then one of them again, signing twice in place of another
+		if need < 2 || len(memberAcc) < need {
+			return
+		}
+		ks := append(append([]*account.Account{}, memberAcc[:need]...), memberAcc[need-1])
+		sg := append(append([]*account.Account{}, memberAcc[1:need]...), memberAcc[need-1])
+		sealRaw(blk, ks, sg, nil)
+		reseal, name = false, "member-repeated-after-quorum"
 	default:
 		return
 	}
@@ -464,37 +482,113 @@ func (s *Sim) noteSet() {
 
 // checkLookups: after a commit, lookups by height and by hash return the block and its transactions.
 func (s *Sim) checkLookups(rec *BlockRec) {
-	run := s.R
 	h := rec.Block.Header.Height
 	for _, nd := range s.Nodes {
-		l := nd.L
-		if nd == s.lagNode() && l.GetCurrentBlockHeight() < h {
+		if nd == s.lagNode() && nd.L.GetCurrentBlockHeight() < h {
 			continue
 		}
-		if l.GetCurrentBlockHeight() != h || l.GetCurrentBlockHash() != rec.Block.Hash() {
-			run.Fail("C13", "tip-not-the-committed-block", "%s: tip (%d,%x) is not the committed block (%d,%x)", nd.Name, l.GetCurrentBlockHeight(), l.GetCurrentBlockHash(), h, rec.Block.Hash())
+		s.lookupsOn(nd, rec, true)
+	}
+}
+
+// lookupsOn: node nd has committed rec; lookups by height and by hash return that block and its
+// transactions (tip: rec must also be nd's current block).
+func (s *Sim) lookupsOn(nd *chain.Node, rec *BlockRec, tip bool) {
+	run := s.R
+	h := rec.Block.Header.Height
+	l := nd.L
+	if tip && (l.GetCurrentBlockHeight() != h || l.GetCurrentBlockHash() != rec.Block.Hash()) {
+		run.Fail("C13", "tip-not-the-committed-block", "%s: tip (%d,%x) is not the committed block (%d,%x)", nd.Name, l.GetCurrentBlockHeight(), l.GetCurrentBlockHash(), h, rec.Block.Hash())
+		return
+	}
+	if got := l.GetBlockHash(h); got != rec.Block.Hash() {
+		run.Fail("C13", "lookup-by-height-wrong", "%s: hash at height %d is %x, committed block is %x", nd.Name, h, got, rec.Block.Hash())
+	}
+	if hd, err := l.GetHeaderByHeight(h); err != nil || hd == nil || hd.Hash() != rec.Block.Hash() {
+		run.Fail("C13", "lookup-by-height-wrong", "%s: header at height %d is not the committed block's (%v)", nd.Name, h, err)
+	}
+	b1, err1 := l.GetBlockByHeight(h)
+	b2, err2 := l.GetBlockByHash(rec.Block.Hash())
+	if err1 != nil || err2 != nil || b1 == nil || b2 == nil || b1.Hash() != rec.Block.Hash() || b2.Hash() != rec.Block.Hash() ||
+		len(b1.Transactions) != len(rec.Block.Transactions) || len(b2.Transactions) != len(rec.Block.Transactions) {
+		run.Fail("C13", "block-lookup-wrong", "%s: block %d not returned by height/hash lookups (%v %v)", nd.Name, h, err1, err2)
+		return
+	}
+	if !bytes.Equal(canonBlock(b1), canonBlock(rec.Block)) {
+		what := ""
+		if !bytes.Equal(b1.Header.ToArray(), rec.Block.Header.ToArray()) {
+			what += " header(with seal)"
+		}
+		for i := range b1.Transactions {
+			if !bytes.Equal(canonTx(b1.Transactions[i]), canonTx(rec.Block.Transactions[i])) {
+				// The ledger stores transactions by hash and does not deduplicate (the pool and the
+				// validators do): a transaction with the same hash but other witness bytes that a
+				// later block of the workload includes again replaces the stored copy.
+				if !tip && b1.Transactions[i].Hash() == rec.Block.Transactions[i].Hash() && s.reincluded(rec.Block.Transactions[i].Hash(), h) {
+					run.Probe("historic_block_holds_reincluded_tx")
+					continue
+				}
+				what += fmt.Sprintf(" tx[%d]", i)
+			}
+		}
+		if what != "" {
+			run.Fail("C13", "stored-block-differs", "%s: stored block %d differs from the committed one in:%s", nd.Name, h, what)
+		}
+	}
+	for i, tx := range rec.Block.Transactions {
+		got, gh, err := l.GetTransactionWithHeight(tx.Hash())
+		if err != nil || got == nil || got.Hash() != tx.Hash() || (gh != h && !s.dupTx(tx.Hash(), h) && !(!tip && s.reincluded(tx.Hash(), h))) {
+			run.Fail("C13", "transaction-lookup-wrong", "%s: tx %d of block %d lookup: err=%v height=%d", nd.Name, i, h, err, gh)
+		}
+	}
+}
+
+// canonTx / canonBlock: byte form used to compare a looked-up block with the committed one.
+// Witness public keys are compared as a set: GetSignatureAddresses sorts Sig.PubKeys of the
+// in-memory transaction in place during execution, while the block store keeps the received
+// bytes (tx.Raw), so a node serving the block from its cache and one serving it from disk
+// legitimately differ in the order of a multi-signature's keys (the hash covers neither).
+func canonTx(tx *types.Transaction) []byte {
+	sink := common.NewZeroCopySink(nil)
+	tx.SerializeUnsigned(sink)
+	for _, sg := range tx.Sigs {
+		sink.WriteUint16(sg.M)
+		var ks []string
+		for _, k := range sg.PubKeys {
+			ks = append(ks, string(keypair.SerializePublicKey(k)))
+		}
+		sort.Strings(ks)
+		for _, k := range ks {
+			sink.WriteVarBytes([]byte(k))
+		}
+		for _, d := range sg.SigData {
+			sink.WriteVarBytes(d)
+		}
+	}
+	return sink.Bytes()
+}
+
+func canonBlock(b *types.Block) []byte {
+	out := append([]byte{}, b.Header.ToArray()...)
+	for _, tx := range b.Transactions {
+		out = append(out, canonTx(tx)...)
+	}
+	return out
+}
+
+// reincluded: the transaction is also part of another committed block (any height).
+func (s *Sim) reincluded(h common.Uint256, height uint32) bool {
+	for _, rec := range s.Blocks {
+		if rec.Block.Header.Height == height {
 			continue
 		}
-		if l.GetBlockHash(h) != rec.Block.Hash() {
-			run.Fail("C13", "lookup-by-height-wrong", "%s: hash at height %d", nd.Name, h)
-		}
-		b1, err1 := l.GetBlockByHeight(h)
-		b2, err2 := l.GetBlockByHash(rec.Block.Hash())
-		if err1 != nil || err2 != nil || b1 == nil || b2 == nil || b1.Hash() != rec.Block.Hash() || b2.Hash() != rec.Block.Hash() ||
-			len(b1.Transactions) != len(rec.Block.Transactions) || len(b2.Transactions) != len(rec.Block.Transactions) {
-			run.Fail("C13", "block-lookup-wrong", "%s: block %d not returned by height/hash lookups (%v %v)", nd.Name, h, err1, err2)
-			continue
-		}
-		if !bytes.Equal(b1.ToArray(), rec.Block.ToArray()) {
-			run.Fail("C13", "stored-block-differs", "%s: stored block %d differs from the committed one", nd.Name, h)
-		}
-		for i, tx := range rec.Block.Transactions {
-			got, gh, err := l.GetTransactionWithHeight(tx.Hash())
-			if err != nil || got == nil || got.Hash() != tx.Hash() || (gh != h && !s.dupTx(tx.Hash(), h)) {
-				run.Fail("C13", "transaction-lookup-wrong", "%s: tx %d of block %d lookup: err=%v height=%d", nd.Name, i, h, err, gh)
+		for _, tx := range rec.Block.Transactions {
+			if tx.Hash() == h {
+				return true
 			}
 		}
 	}
+	return false
 }
 
 // dupTx: the same transaction may have been included in an earlier block as well (the ledger
